@@ -172,6 +172,18 @@ enum State {
     Hold,
 }
 
+#[cfg(feature = "verif-hooks")]
+impl State {
+    fn verif_name(self) -> &'static str {
+        match self {
+            State::Healthy => "Healthy",
+            State::ExplicitPartition => "Explicit",
+            State::RandPartition => "Rand",
+            State::Hold => "Hold",
+        }
+    }
+}
+
 impl Topology {
     pub(crate) fn new(config: config::Link) -> Topology {
         Topology {
@@ -383,6 +395,8 @@ impl Link {
         let status = match state {
             State::Healthy => {
                 let delay = self.delay(global_config.latency(), rand);
+                #[cfg(feature = "verif-hooks")]
+                tracing::trace!(target: "turmoil_verif", delay_ms = delay.as_millis() as u64, "Delay");
                 DeliveryStatus::DeliverAfter(self.now + delay)
             }
             // Only A->B is blocked, so B can send, so we can send if src is B
@@ -478,6 +492,8 @@ impl Link {
             }
             _ => {}
         }
+        #[cfg(feature = "verif-hooks")]
+        tracing::trace!(target: "turmoil_verif", do_rand, a_b = self.state_a_b.verif_name(), b_a = self.state_b_a.verif_name(), "Rand");
     }
 
     fn hold(&mut self) {
